@@ -6,60 +6,34 @@
    Liveness is stated as safety of STUCK configurations ([stuck], proof/PoolProofB.v): no goroutine can
    execute a statement, no armed idle timer is left to fire, no user task is still running.
 
-   STATUS (honest account; this file is extended as the invariant layers in proof/PoolProofB*.v close)
+   STATUS: both target theorems are PROVED (for every valid parameter record and every event list the model
+   accepts, on the code as it is: i_fixa = i_fixb = true; i_fixc = true where stuck configurations are analysed)
 
-   PROVED here
+     done_not_early                        graceful cancel => queue empty, no goroutine still counted in totalGo
+                                           (so no worker holds a task), every accepted task done
+     shutdown_completes                    Shutdown succeeded and the configuration is stuck => stopped, context
+                                           cancelled (the returned channel is closed), every accepted task done
      shutdown_hang_refuted                 the pinned code (i_fixb = false) hangs: witness schedule
      shutdown_completes_after_timer_exit   Example: on the code as it is the same schedule completes
-     pool_lock_discipline_B                b.mutex (write/read), group.mu (write/read) and the state word at
-                                           `locked` count exactly the threads inside their critical sections
-     pool_mutual_exclusion_B               hence never two goroutines inside b.mutex's / group.mu's write
-                                           section, never two holders of the state word
-     graceful_cancel_only_after_shutdown   whenever the graceful path has cancelled the context: state =
-                                           stopped, context cancelled, a Shutdown had succeeded, and NO
-                                           ShutdownNow ever succeeded
-     closed_flag_accounting                closed + (Shutdown at its close) + (ShutdownNow at its close) =
-                                           g_shut + g_now; the two are exclusive; closed => closing/stopped;
-                                           cancelled => stopped
-   These four hold for EVERY parameter record (no validity hypothesis) and for all pinned / repaired
-   variants; they are steps towards the two theorems below, NOT those theorems.
-     stuck_threads_are_parked              (valid parameters, i_fixc = true) in a stuck configuration every
-                                           goroutine is a worker parked in its select without an armed timer;
-                                           closed / cancelled / non-empty queue => no goroutine at all
 
-   PROVED ONE HYPOTHESIS SHORT (rule 3)
-     done_not_early_partial, shutdown_completes_partial : the full statements below with the single extra
-     hypothesis [invK c] - the Layer-5 record (K, J, Q, cancel bridge; proof/PoolProofB5d.v) at the
-     configuration.  Every other invariant is discharged by reachability (lock discipline, life cycle,
-     goroutine ids, totalGo / timeoutGroup accounting, stuck analysis, agent-pool's ledger).  MISSING:
-     `invK` is preserved by every step (machine-checking in progress; all its conjuncts pass 126M random
-     model steps in exactly this encoding, and the checker flags the pinned i_fixa = false model).
+   and, on the way (these hold for EVERY parameter record and every pinned / repaired variant):
+     pool_lock_discipline_B, pool_mutual_exclusion_B, graceful_cancel_only_after_shutdown, closed_flag_accounting
+   and (valid parameters, i_fixc = true):
+     stuck_threads_are_parked              in a stuck configuration every goroutine is a worker parked in its
+                                           select without an armed timer; closed / cancelled / non-empty queue
+                                           => no goroutine at all
 
-   NOT PROVED YET (full statements; P with pvalid P, i_fixa P = i_fixb P = i_fixc P = true)
-
-     done_not_early :
-       forall P evs c, exec pstep_cfg (pinit P) evs = Some c -> g_grace (c_gh c) = true ->
-         s_q (c_sh c) = [] /\ (no worker has a received task) /\
-         (forall i, In i (g_acc (c_gh c)) -> In i (g_done (c_gh c)))
-       missing invariants: (K) while the pool is live at least initGo counted workers are not members of
-       timeoutGroup, or the queue is closed and empty; (Q) a goroutine that read totalGo = 0 after its own
-       decrement implies totalGo = 0 now.  With them: at the successful CAS closing -> stopped totalGo = 0,
-       so no counted worker (none holds a task) and by K the queue is closed and empty; acc <= done then
-       follows from agent-pool's ledger (PoolProof6.accepted_in_ledger_lemma) and
-       graceful_cancel_only_after_shutdown (nothing was ever returned by ShutdownNow).
-
-     shutdown_completes :
-       forall P evs c, exec pstep_cfg (pinit P) evs = Some c -> g_shut (c_gh c) = true -> stuck c ->
-         s_state (c_sh c) = SStopped /\ s_ictx (c_sh c) = true /\
-         (forall i, In i (g_acc (c_gh c)) -> In i (g_done (c_gh c)))
-       missing: K, Q as above; (J) in state closing with totalGo = 0 some goroutine is between its
-       decrement and the CAS closing -> stopped; and the analysis of stuck configurations (every thread of
-       a stuck configuration is a parked worker without an armed timer), which needs, besides the lock
-       discipline proved here: "at `<-idleTimer.C` after a failed Stop the timer has fired" (proved in
-       scratch, waits for the goroutine-id layer), wrapper depth >= 1 (PoolProof7.Inv4), "range b.queue
-       in ShutdownNow runs on a closed queue" (proved: closed_flag_accounting's layer). *)
+   Proof structure (proof/PoolProofB*.v): invariant layers, each a record of linear facts over sums of
+   per-thread classifiers, each preserved by every step (one case analysis over the ~170 statements per
+   layer / per field): BA finite map, B1 locks, B2 life cycle, B2b interrupt branch / parked workers, B3
+   goroutine ids, B4 totalGo and timeoutGroup accounting, BR returned list, B5 the two invariants the repaired
+   code relies on (K: >= initGo counted non-timer workers while live; J: in closing the goroutine whose
+   decrement brought totalGo to 0 is on its way to the CAS) with Q and the cancel bridge; B6 analysis of
+   stuck configurations; B7/B8 assembly, using agent-pool's task ledger (PoolProof6) and wrapper-depth
+   invariant (PoolProof7).
+*)
 From Ekit Require Import Common Conc PoolModel PoolProof PoolProof5 PoolExamples PoolProofB PoolProofB0 PoolProofB1 PoolProofB2d
-  PoolProofB4d PoolProofB5d PoolProofBz.
+  PoolProofB4d PoolProofB5d PoolProofBz PoolProofB8.
 
 (* On the code BEFORE the fix: commit 11c4414 (i_fixb = false): a schedule after which Shutdown has
    succeeded and returned, nothing can run any more, every accepted task is done - and the pool is in
@@ -138,26 +112,32 @@ Theorem stuck_threads_are_parked : forall P evs c,
 Proof. exact stuck_threads_are_parked_lemma. Qed.
 Print Assumptions stuck_threads_are_parked.
 
-(* ---------- the two target theorems, ONE hypothesis short (rule 3: _partial) ---------- *)
-(* [invK c] (proof/PoolProofB5d.v) = the Layer-5 record at configuration c: (K) live and not stopped =>
-   queue closed-and-empty or initGo <= counted non-timer workers + creations in progress, with its two
-   guards; (J) closing and totalGo = 0 => some goroutine is between its decrement and the CAS;
-   (Q) a goroutine that read totalGo = 0 => totalGo = 0; the cancel bridge.  It holds initially; what is
-   NOT proved yet is that every step preserves it.  Everything else the statements need (lock discipline,
-   life cycle, ids, counters, stuck analysis, agent-pool's ledger) is discharged. *)
-Theorem done_not_early_partial : forall P evs c,
-  pvalid P -> exec pstep_cfg (pinit P) evs = Some c -> invK c -> g_grace (c_gh c) = true ->
+(* ---------- C12: the two target theorems ---------- *)
+(* pfixed P := i_fixa P = true /\ i_fixb P = true (the two `fix:` commits are in); i_fixc = true is needed
+   only where a stuck configuration is analysed (wrapper depth 1, PoolProof7.Inv4). *)
+
+(* The done channel never closes early: whenever the GRACEFUL path has cancelled the interrupt context
+   (g_grace is set by exactly the two `b.interruptCtxCancel()` statements that follow a successful CAS
+   closing -> stopped), the queue is empty, every remaining goroutine has already executed its decrement of
+   totalGo (in particular no worker holds a received task: agent-pool's `held`), and every accepted task is
+   done.  For every valid parameter record and EVERY event list the model accepts. *)
+Theorem done_not_early : forall P evs c,
+  pvalid P -> pfixed P -> exec pstep_cfg (pinit P) evs = Some c -> g_grace (c_gh c) = true ->
   s_q (c_sh c) = [] /\
   (forall t x, lookup t (c_thr c) = Some x -> g_cnt (pc x) = 0) /\
   (forall i, PoolProof.tsum (held i) (c_thr c) = 0) /\
   (forall i, In i (g_acc (c_gh c)) -> In i (g_done (c_gh c))).
-Proof. exact done_not_early_partial_lemma. Qed.
-Print Assumptions done_not_early_partial.
+Proof. exact done_not_early_full. Qed.
+Print Assumptions done_not_early.
 
-Theorem shutdown_completes_partial : forall P evs c,
-  pvalid P -> i_fixc P = true -> exec pstep_cfg (pinit P) evs = Some c -> invK c ->
+(* Graceful Shutdown completes (liveness as safety of stuck configurations): in every reachable
+   configuration in which a Shutdown has succeeded and nothing can happen any more (no goroutine can execute
+   a statement, no armed timer, no running user task), the pool is stopped, the interrupt context - the
+   channel Shutdown returned - is cancelled, and every accepted task is done. *)
+Theorem shutdown_completes : forall P evs c,
+  pvalid P -> pfixed P -> i_fixc P = true -> exec pstep_cfg (pinit P) evs = Some c ->
   g_shut (c_gh c) = true -> stuck c ->
   s_state (c_sh c) = SStopped /\ s_ictx (c_sh c) = true /\
   (forall i, In i (g_acc (c_gh c)) -> In i (g_done (c_gh c))).
-Proof. exact shutdown_completes_partial_lemma. Qed.
-Print Assumptions shutdown_completes_partial.
+Proof. exact shutdown_completes_full. Qed.
+Print Assumptions shutdown_completes.
